@@ -43,12 +43,24 @@ func (DescriptionRes) Service() ServiceID {
 
 // Size returns the packed size of a Description Response.
 func (res DescriptionRes) Size() uint {
-	return res.DeviceHardware.Size() + res.SupportedServices.Size()
+	size := res.DeviceHardware.Size() + res.SupportedServices.Size()
+	for _, u := range res.UnknownBlocks {
+		size += u.Size()
+	}
+
+	return size
 }
 
-// Pack assembles the Description Response structure in the given buffer.
+// Pack assembles the Description Response structure in the given buffer. The blocks that Unpack
+// keeps without interpreting them follow the two mandatory ones.
 func (res *DescriptionRes) Pack(buffer []byte) {
 	util.PackSome(buffer, &res.DeviceHardware, &res.SupportedServices)
+
+	offset := res.DeviceHardware.Size() + res.SupportedServices.Size()
+	for i := range res.UnknownBlocks {
+		res.UnknownBlocks[i].Pack(buffer[offset:])
+		offset += res.UnknownBlocks[i].Size()
+	}
 }
 
 // Unpack parses the given service payload in order to initialize the Description Response.
